@@ -1,4 +1,5 @@
 import ZipVerif.Tie.WriterSM
+import ZipVerif.Tie.RawCopy
 import ZipVerif.Props.C12
 /-
 COMPOSITION of the step-wise writer ties (`Tie/WriterSM.lean`) with the writer invariant
@@ -40,12 +41,14 @@ for `calls = cs.map toCall`, statements about the run of the translated methods 
 
 COVERED calls (the methods are translated, `Gen/Writer.lean`): start_file, start_file_with_extra_data, write
 (`write_all`), end_local_start_central_extra_data, end_extra_data, add_directory, add_symlink, set_comment,
-finish, drop.  NOT YET covered: `Call.startFileAligned` - start_file_aligned is translated and tied RELATIVE to its
+finish, drop, and (helper t6w4) raw_copy_file_rename from a source whose raw reader delivers the entry in ONE read
+(`GCall.rawCopy`, `Tie/RawCopy.sim_raw_copy_one`: an entry of at most 8 KiB; a longer copy is several sink writes in
+the source and one in the model's `Call.rawCopy` - equal on a fault-free sink, `raw_copy_chunking_invisible`, but not
+under every fault index, so it is not a covered call).  NOT YET covered: `Call.startFileAligned` - start_file_aligned is translated and tied RELATIVE to its
 four callees on a state predicate `I` closed under them (`Tie/Aligned.lean`, `CalleeSims ext I`); the side
 conditions (3) are not closed under `write` (they are re-assumed before every call here), so plugging it in needs
-`FitsRun` extended to the inner calls of that method -; `Call.rawCopy` (raw_copy_file_rename, not translated
-yet); scripts that start from `ZipWriter::new_append` instead of `new` (`grun_sim` is stated for every start
-object with `Inv`, so it applies once `new_append`'s result - `Tie/AppendOpen.lean` - is shown to satisfy `Inv`).
+`FitsRun` extended to the inner calls of that method.  Scripts that start from `ZipWriter::new_append` instead of
+`new`: `Tie/AppendCompose.lean` (`inv_new_append`, `append_grun_sim`).
 
 The vocabulary `Rs.S.switch_to` the generated methods call is PROVED equal to the translated
 `GenericZipWriter::switch_to` (`Tie/SwitchTo.lean`), `Rs.S.zc_finish` is linked with the translated
@@ -81,6 +84,9 @@ inductive GCall
   | setComment (c : Bytes)
   | finish
   | drop
+  /-- `raw_copy_file_rename(file, name)` from a source entry whose raw reader delivers its bytes `raw` in ONE read
+  (helper t6w4; `now`: the wall clock `FileOptions::default()` reads and the method overwrites) -/
+  | rawCopy (now : Gen.DateTime) (file : Rs.C.ZipFile Gen.ZipFileData) (name raw : Bytes)
 
 /-- the model call of a covered call -/
 def toCall : GCall → Call
@@ -94,6 +100,7 @@ def toCall : GCall → Call
   | .setComment c => .setComment c
   | .finish => .finish
   | .drop => .drop
+  | .rawCopy _ file n raw => .rawCopy (dataOf file.data) raw n
 
 /-- the value `ZipWriter::new(sink)` builds -/
 def fresh : Gen.ZipWriter :=
@@ -133,6 +140,8 @@ def gstep (ext : Rs.S.Ext) (c : GCall) (g : Gen.ZipWriter) : M (Except ZErr (Opt
   | .setComment c => okMap (fun _ => none) <$> Rs.S.run (Gen.ZipWriter.set_comment ext g c)
   | .finish => okMap (fun _ => none) <$> Rs.S.run (Gen.ZipWriter.finish ext g)
   | .drop => Rs.S.run (Gen.ZipWriter.drop ext g) >>= fun p => dropFields ext.toWExt p.2
+  | .rawCopy now file n _ =>
+    okMap (fun _ => none) <$> Rs.S.run (Gen.ZipWriter.raw_copy_file_rename ext now g file n)
 
 /-! ### (3) the `Nat` / `u64` side conditions -/
 
@@ -158,6 +167,7 @@ def ArgFits (g : Gen.ZipWriter) : GCall → Prop
       g.stats.bytes_written.toNat + b.length < 18446744073709551616
   | .addDirectory n _ => n.length + 1 < 18446744073709551616
   | .addSymlink n t _ => n.length < 18446744073709551616 ∧ t.length < 9223372036854775808
+  | .rawCopy _ file n raw => n.length < 18446744073709551616 ∧ Delivers file.raw [raw]
   | _ => True
 
 def Fits (g : Gen.ZipWriter) (c : GCall) : Prop := Sized g ∧ ArgFits g c
@@ -191,10 +201,12 @@ theorem htime_of_admissible (c : GCall) (hc : (toCall c).Admissible) :
     match c with
     | .startFile _ o | .startFileWithExtraData _ o | .addDirectory _ o | .addSymlink _ _ o =>
       (Tie.DateTime.toModel o.last_modified_time).datepart ≠ none
+    | .rawCopy _ file _ _ => (Tie.DateTime.toModel file.data.last_modified_time).datepart ≠ none
     | _ => True := by
   cases c <;> simp only [toCall, Call.Admissible] at hc ⊢
   · exact datepart_of_timeOk _ hc
   · exact datepart_of_timeOk _ hc.1
+  · exact datepart_of_timeOk _ hc
   · exact datepart_of_timeOk _ hc
   · exact datepart_of_timeOk _ hc
 
@@ -294,6 +306,8 @@ theorem step_sim (ext : Rs.S.Ext) (hacc : ∀ b, ext.accept b = b.length) (c : G
     refine Sim.bind (sim_drop ext g hs.last (fileOK_of_inv g hI hs) hs.nfiles hs.comment) fun p _ => ?_
     have := dropFields_eq ext.toWExt p.2
     exact (Sim.of_erase (by rw [this]; rfl)).mono fun _ _ => trivial
+  | rawCopy now file n raw =>
+    exact Sim.toStep _ _ (sim_raw_copy_one ext now g file n raw hs.last ha.1 htime hacc ha.2) (absR_ok _)
 
 /-! ### call sequences -/
 
